@@ -1099,6 +1099,20 @@ def module_constants(tree: ast.Module) -> Dict[str, Any]:
                     out[f"{st.name}.{inner.targets[0].id}"] = m.ev(inner.value)
                     out.setdefault("<class constants>", set()).add(f"{st.name}.{inner.targets[0].id}")
             for inner in st.body:
+                # tables of the class body (tuples / lists / dicts of constants, names, lambdas, operator helpers; `tuple(map(methodcaller,
+                # names))`) that no method rebinds: evaluated once, like the interpreter of the program would
+                if isinstance(inner, ast.Assign) and len(inner.targets) == 1 and isinstance(inner.targets[0], ast.Name) \
+                        and inner.targets[0].id not in rebound and f"{st.name}.{inner.targets[0].id}" not in out \
+                        and (isinstance(inner.value, (ast.Tuple, ast.List, ast.Dict)) or (isinstance(inner.value, ast.Call) and ast.unparse(inner.value.func) in ("tuple", "list", "dict", "frozenset"))):
+                    try:
+                        tm = Machine(dict(out), lambda text: NotImplemented, lambda *a: NotImplemented)
+                        v_ = tm.ev(inner.value)
+                    except Exception:
+                        continue
+                    if isinstance(v_, (tuple, list, dict)) and not isinstance(v_, Opaque):
+                        out[f"{st.name}.{inner.targets[0].id}"] = v_
+                        out.setdefault("<class constants>", set()).add(f"{st.name}.{inner.targets[0].id}")
+            for inner in st.body:
                 if isinstance(inner, ast.ClassDef) and any("NamedTuple" in ast.unparse(b) for b in inner.bases):
                     flds = [x for x in inner.body if isinstance(x, ast.AnnAssign) and isinstance(x.target, ast.Name)]
                     out[f"{st.name}.{inner.name}"] = RecordType(inner.name, [x.target.id for x in flds],
